@@ -146,13 +146,21 @@ def rule_limit(ctx, fx, config):
     with fin.deep():
         cs = {(c["op"], c["rl"], c["rr"]) for c in compares(fin)}
         sw = {render(sym) for _b, sym, _t, _f in bool_switches(fin)}
+    import re as _re
     need = [("Ge", "self.report.aliases", "self.budget.alias_anchor_min_aliases"),
-            ("Eq", "self.report.anchors", "0"),
-            ("Gt", "self.report.aliases", "Mul(self.budget.alias_anchor_ratio_multiplier, self.report.anchors)")]
+            ("Eq", "self.report.anchors", "0")]
     for n_ in need:
-        alt = ("Gt", n_[1], "Mul(self.report.anchors, self.budget.alias_anchor_ratio_multiplier)")
-        ctx.check(n_ in cs or (n_[0] == "Gt" and alt in cs), "LIMIT", "C07:LIMIT:finalize:ratio:%s" % n_[0],
+        ctx.check(n_ in cs, "LIMIT", "C07:LIMIT:finalize:ratio:%s" % n_[0],
                   "ratio heuristic clause %s(%s, %s) present" % n_, "ratio heuristic clause %s(%s, %s) missing or altered; found %s" % (n_ + (sorted(cs),)), config, ctx.where(fin))
+    # aliases > multiplier x anchors — any non-wrapping product of exactly these two factors, in either order
+    okp = False
+    for op, l, r in cs:
+        if op == "Gt" and l == "self.report.aliases":
+            m = _re.match(r"^(Mul|saturating_mul|checked_mul)\((.+), (.+)\)$", r)
+            if m and {m.group(2), m.group(3)} == {"self.budget.alias_anchor_ratio_multiplier", "self.report.anchors"}:
+                okp = True
+    ctx.check(okp, "LIMIT", "C07:LIMIT:finalize:ratio:Gt", "ratio clause: aliases > multiplier x anchors (non-wrapping product)",
+              "the ratio clause `aliases > multiplier x anchors` is missing or altered; found %s" % sorted(cs), config, ctx.where(fin))
     ctx.check("self.budget.enforce_alias_anchor_ratio" in sw, "LIMIT", "C07:LIMIT:finalize:ratio:switch",
               "heuristic is gated by enforce_alias_anchor_ratio", "the ratio heuristic is no longer gated by enforce_alias_anchor_ratio", config, ctx.where(fin))
 
